@@ -23,7 +23,10 @@ PID = 'C09'
 def cov_case(rng):
   d = int(rng.integers(1, 6))
   n = int(rng.integers(max(4 * d, 5), 4 * d + 12))
-  X = gen.grid(rng.normal(size=(n, d)).dot(rng.normal(size=(d, d)) + np.eye(d)) * 2.0, bits=4)
+  while True:
+    X = gen.grid(rng.normal(size=(n, d)).dot(rng.normal(size=(d, d)) + np.eye(d)) * 2.0, bits=4)
+    if np.ptp(X, axis=0).min() > 0:        # (no constant feature: well-formed data)
+      break
   kind = 'full'
   if d >= 2 and rng.random() < 0.35:
     # singular covariance: an exact linear dependence between features
@@ -31,6 +34,10 @@ def cov_case(rng):
     kind = 'singular'
   if rng.random() < 0.3:
     X = np.vstack([X, X[:3]])       # duplicated samples
+  # raw features of any magnitude and location (exact: a power of two, an integer offset representable with the grid bits)
+  X = X * float(2.0 ** int(rng.choice([0, 0, -20, -7, 9, 24]))) if rng.random() < 0.5 else X
+  if rng.random() < 0.3:
+    X = X + np.round(rng.normal(size=d) * 3.0) * float(2.0 ** np.ceil(np.log2(np.abs(X).max()))) * 2.0 ** 12      # (a common offset 4096 times the spread)
   ev = {'ev': 'CovarianceFit', 'X': dym(X), 'exc': '', 'L': [], 'kind': kind}
   with warnings.catch_warnings():
     warnings.simplefilter('ignore')
@@ -45,6 +52,10 @@ def rca_case(rng):
   d = int(rng.integers(2, 5))
   X, y = gen.dataset(rng, d=d, n_classes=int(rng.integers(2, 4)), per_class=int(rng.integers(5, 8)), bits=4)
   ch = gen.chunks_from(rng, y, with_unknown=bool(rng.integers(2)))
+  if rng.random() < 0.5:
+    X = X * float(2.0 ** int(rng.choice([-20, -7, 9, 24])))
+  if rng.random() < 0.3:
+    X = X + np.round(rng.normal(size=d) * 3.0) * float(2.0 ** np.ceil(np.log2(np.abs(X).max()))) * 2.0 ** 12      # (a common offset 4096 times the spread)
   n_comp = None if rng.random() < 0.4 else int(rng.integers(1, d + 1))
   ev = {'ev': 'RcaFit', 'X': dym(X), 'chunks': [int(v) for v in ch], 'exc': '', 'L': [], 'Vt': [], 'lam': [],
         'n_components': n_comp or 0}
@@ -84,6 +95,8 @@ def lfda_case(rng, small_class=False):
     X, y = X[keep], y[keep]
   emb = str(rng.choice(['weighted', 'orthonormalized', 'plain']))
   n_comp = None if rng.random() < 0.4 else int(rng.integers(1, d + 1))
+  if rng.random() < 0.4:
+    X = X * float(2.0 ** int(rng.choice([-20, -7, 9, 24])))       # (a power of two: the affinities exp(-d^2 / (s_i s_j)) are scale free)
   n = len(X)
   ev = {'ev': 'LfdaFit', 'X': dym(X), 'y': [int(v) for v in y], 'k': kparam, 'embedding': emb, 'exc': '', 'L': [],
         'doc': {}, 'dev': {}, 'n_components': n_comp or 0}
